@@ -990,6 +990,49 @@ Example generate_error_located :
     /\ outcome_written (run (scalar_witness f)) = [].
 Proof. intros [| |]; eexists; vm_compute; repeat split. Qed.
 
+(** the order in which run_generate meets generate-stage faults: the two option errors are tested before any
+    printer runs, and a printer error comes before anything is written — whatever the other answers are *)
+Lemma generate_option_required_first p x0 :
+  g_schema_output (pj_gen p) = None -> g_module_specifier (pj_gen p) = false ->
+  generate_body p x0
+  = RErr (plain (s "Option 'schemaOutput' is required for the 'generate' command. ")) (add_run x0 GENERATE).
+Proof. intros H1 H2. unfold generate_body. rewrite H1, H2. reflexivity. Qed.
+
+Lemma generate_runtime_dts_first p x0 :
+  is_some (g_schema_output (pj_gen p)) = true -> g_emit_runtime (pj_gen p) = true ->
+  is_dts (abs_output p (g_schema_output (pj_gen p))) = true ->
+  generate_body p x0 = RErr (plain (s "Cannot emit code including runtime to a .d.ts file.")) (add_run x0 GENERATE).
+Proof. intros H1 H2 H3. unfold generate_body. rewrite H1, H2, H3. reflexivity. Qed.
+
+Lemma generate_schema_printer_error_first p x0 o e :
+  g_schema_output (pj_gen p) = Some o -> g_emit_runtime (pj_gen p) && is_dts (abs_output p (Some o)) = false ->
+  pj_print_schema p = SErr e ->
+  generate_body p x0 = RErr e (add_run x0 GENERATE).
+Proof.
+  intros H1 H2 H3. unfold generate_body. rewrite H1. cbn [is_some negb andb]. rewrite H2.
+  cbn [abs_output option_map opt_step]. rewrite H3. reflexivity.
+Qed.
+
+(** both faults at once — no schemaOutput and a scalar without a TypeScript type: the option error is the outcome,
+    in all formats, and it names no file (there is none to name); the located printer error is never produced *)
+Definition both_generate_faults_witness (f : fmt) : proj :=
+  mk_proj (s "/w") [s "generate"] f CfgOk [] false
+    [mk_schf (s "/w/schema.graphql") (s "scalar Date
+type Query { d: Date }
+") None] []
+    [] None [] [] (mk_gencfg StandaloneTS40 None None None false false)
+    (SErr (mkerr (s "Type for scalar 'Date' is not provided") (Some (mkpos 0 0 0 false)) [])) SOk SOk.
+
+Example generate_option_error_reported_first :
+  forall f, exists texts,
+    run_texts (both_generate_faults_witness f) = Some (1, texts)
+    /\ flat_map (locations_of (s "/w/schema.graphql")) texts = []
+    /\ existsb (fun t => starts_with (s "Option 'schemaOutput' is required") t
+                         || starts_with (s "'check' finished
+Error in command 'generate':
+Option 'schemaOutput' is required") t) texts = true.
+Proof. intros [| |]; eexists; vm_compute; repeat split. Qed.
+
 (** a printer error with a built-in position (a schema loaded from introspection JSON has no file to name)
     is printed as the bare message *)
 Lemma builtin_position_bare files m add :
